@@ -6,7 +6,6 @@ import (
 	"go/token"
 	"os"
 	"path/filepath"
-	"sort"
 	"strings"
 )
 
@@ -86,6 +85,7 @@ type tr struct {
 	optPar  map[string]bool
 	loops   *[]string // extra definitions emitted before the function
 	nloop   int
+	ord     *declOrd // declaration order of the variables (declorder.go)
 }
 
 // genError is raised when a function leaves the translator's grammar; emitPreds skips that function (and, through
@@ -671,7 +671,7 @@ func (t *tr) stmts(list []ast.Stmt, k func() string) string {
 				} else {
 					val = typ.zero()
 				}
-				t.env[id.Name] = typ
+				t.bind(id.Name, typ, id.Pos())
 				out += "let " + cname(id.Name) + " := " + val + " in\n  "
 			}
 		}
@@ -724,7 +724,7 @@ func (t *tr) stmts(list []ast.Stmt, k func() string) string {
 				vars = append(vars, v)
 			}
 		}
-		sort.Strings(vars)
+		t.sortDecl(vars)
 		if len(vars) == 0 {
 			return rest()
 		}
@@ -815,7 +815,7 @@ func (t *tr) assign(lhs ast.Expr, tok token.Token, rs string, rt *ty, n ast.Node
 			if typ.k == "untyped" {
 				typ = tInt
 			}
-			t.env[l.Name] = typ
+			t.bind(l.Name, typ, l.Pos())
 			return "let " + cname(l.Name) + " := " + rs + " in\n  "
 		}
 		val := t.opAssign(cname(l.Name), typ, tok, rs, rt, n)
@@ -907,7 +907,7 @@ func (t *tr) freeVars(n ast.Node, bound map[string]bool) []string {
 	for v := range set {
 		out = append(out, v)
 	}
-	sort.Strings(out)
+	t.sortDecl(out)
 	return out
 }
 
@@ -946,7 +946,7 @@ func (t *tr) rangeLoop(s *ast.RangeStmt) string {
 			acc = append(acc, v)
 		}
 	}
-	sort.Strings(acc)
+	t.sortDecl(acc)
 	if len(acc) == 0 {
 		return ""
 	}
@@ -963,7 +963,7 @@ func (t *tr) rangeLoop(s *ast.RangeStmt) string {
 	name := fmt.Sprintf("%s_loop%d", strings.ReplaceAll(t.fn, ".", "_"), t.nloop)
 	saved := t.copyEnv()
 	if elem != "_" {
-		t.env[elem] = et
+		t.bind(elem, et, s.Value.Pos())
 	}
 	body := t.stmts(s.Body.List, func() string { return tuple(acc) })
 	var params []string
@@ -1019,12 +1019,12 @@ func (p *pkg) function(key string, state bool) string {
 	t := &tr{p: p, fn: key, env: map[string]*ty{}, optPar: map[string]bool{}, loops: &loops}
 	var params []string
 	var sig []*ty
-	addParam := func(name string, te ast.Expr) {
+	addParam := func(name string, te ast.Expr, pos token.Pos) {
 		typ := t.goType(te)
 		if typ.k == "opt" && !usesNil(d.Body, name) {
 			typ = typ.elem // pointer that is never compared with nil: modelled as the record itself
 		}
-		t.env[name] = typ
+		t.bind(name, typ, pos)
 		sig = append(sig, typ)
 		params = append(params, fmt.Sprintf("(%s : %s)", cname(name), typ.coq()))
 	}
@@ -1035,11 +1035,11 @@ func (p *pkg) function(key string, state bool) string {
 		if len(f.Names) == 1 {
 			recvVar = f.Names[0].Name
 		}
-		addParam(recvVar, f.Type)
+		addParam(recvVar, f.Type, f.Pos())
 	}
 	for _, f := range d.Type.Params.List {
 		for _, id := range f.Names {
-			addParam(id.Name, f.Type)
+			addParam(id.Name, f.Type, id.Pos())
 		}
 	}
 	var resTy []*ty
@@ -1056,7 +1056,7 @@ func (p *pkg) function(key string, state bool) string {
 			for _, id := range f.Names {
 				resTy = append(resTy, typ)
 				t.results = append(t.results, id.Name)
-				t.env[id.Name] = typ
+				t.bind(id.Name, typ, id.Pos())
 				pre += "let " + cname(id.Name) + " := " + typ.zero() + " in\n  "
 			}
 		}
